@@ -116,6 +116,8 @@ var walkers = []struct{ Name, Src string }{
 	{"parse-reviver-object", `JSON.parse('{"a": 0, "b": {}, "c": [1], "d": 3}', function(k, v){ return mut(this, k, v) })`},
 	{"parse-reviver-nested", `JSON.parse('[[0, {}], {"b": {}}]', function(k, v){ return mut(this, k, v) })`},
 	{"stringify-replacer", `JSON.stringify(s, function(k, v){ return mut(this, k, v) })`},
+	{"stringify-undefined-replacer", `JSON.stringify(undefined, function(k, v){ return mut(this, k, v) })`},
+	{"stringify-primitive-replacer", `JSON.stringify(1, function(k, v){ return mut(this, k, v) }, "\t")`},
 	{"stringify-replacer-gap", `JSON.stringify(s, function(k, v){ return mut(this, k, v) }, 2)`},
 	{"stringify-toJSON", `(function(){ var o = {x: s, y: {toJSON: function(k){ return mut(s, k, {a: [1]}) }}, z: s}; return JSON.stringify(o) })()`},
 	{"stringify-toJSON-root", `(function(){ s.toJSON = function(k){ return mut(s, k, [1, {}]) }; return JSON.stringify([s, s]) })()`},
@@ -189,6 +191,8 @@ var walkMutations = []struct {
 	{"return-this", `return t`, false},
 	{"return-root", `return s`, false},
 	{"return-fresh-nested", `return {a: [{b: {}}]}`, false},
+	{"return-fresh-array", `return [k === ""]`, false},
+	{"return-fresh-object-with-toJSON", `return {toJSON: function(){ return [{}] }}`, false},
 	{"return-undefined", `return undefined`, true},
 	{"return-function", `return function(){}`, true},
 	{"throw", `throw new RangeError("m")`, true},
@@ -311,6 +315,18 @@ var scriptSinks = []string{
 	`parseInt(%V) + parseFloat(%V) + Number(%V)`, `encodeURIComponent(%V) + encodeURI(%V)`, `decodeURIComponent(%V) + unescape(%V) + escape(%V)`, `new Date(%V).getTime() + Date.parse(%V)`,
 	`(1).toLocaleString(%V)`, `new Error(%V).stack + String(new TypeError(%V))`, `Object.keys(Object(%V)).length`, `[%V].join(%V) + [%V, %V].sort()`, `Array(%V).length`, `(function(){ return arguments })(%V)[0]`,
 	`Array.prototype.concat.call(sS, %V).length`, `JSON.stringify([fAny(%V), st, mSS, sS])`,
+}
+
+// hugeValues: arrays and array-likes whose length claims 2^32-1 / 2^31 / 10^9
+// elements while holding one: a getter at index 0 (and at the top two indices,
+// for walks that start at the end) that throws, so that every conforming walk
+// ends at its first step — only an up-front allocation by the claimed length
+// can hurt.
+var hugeValues = []string{
+	`(function(){ var a = []; a.length = 4294967295; Object.defineProperty(a, "0", {get: function(){ throw new RangeError("stop") }, enumerable: true}); return a })()`,
+	`(function(){ var a = []; a.length = 2147483648; Object.defineProperty(a, "0", {get: function(){ throw new RangeError("stop") }, enumerable: true}); return a })()`,
+	`(function(){ var a = []; a.length = 1e9; Object.defineProperty(a, "0", {get: function(){ throw new RangeError("stop") }, enumerable: true}); return a })()`,
+	`(function(){ var o = {length: -1}; Object.defineProperty(o, "0", {get: function(){ throw new RangeError("stop") }, enumerable: true}); return o })()`,
 }
 
 // twinOps use two string values a and b (every ordered pair of representations).
@@ -531,6 +547,32 @@ func runSinks(r *rc) {
 			execGeneric(r, base, c, 53)
 		}
 	}
+	// arrays / array-likes that CLAIM billions of elements flowing into Go-typed
+	// sinks (a throwing getter at index 0 ends every conforming walk at once)
+	for hi, h := range hugeValues {
+		for si, sk := range []string{`fStrings(%V)`, `fAnys(%V)`, `fAny(%V)`, `fVariadic.apply(null, %V)`, `st.L = %V`, `st.A = %V`, `sS.concat(%V).length`, `fCall(%V)`, `fValue(%V)`, `fMapSA({k: %V})`,
+			`sA[0] = %V`, `mSA.k = %V`, `JSON.stringify(%V)`, `JSON.stringify({}, %V)`, `String(%V)`} {
+			key := fmt.Sprintf("huge-%d|sink-%02d", hi, si)
+			if !r.MineKey(key) {
+				continue
+			}
+			js := "var __v = " + h + "; " + strings.ReplaceAll(sk, "%V", "__v")
+			c := gcase{Key: key, Desc: js, Limit: entryStackLimit, Aux: map[string]string{"group": "huge", "source": fmt.Sprintf("huge-%d", hi), "sink": sk},
+				Do: func(vm *otto.Otto) (otto.Value, error) {
+					if err := installSinkContainers(vm); err != nil {
+						return otto.Value{}, err
+					}
+					v, err := vm.Run(js)
+					if err == nil {
+						// the accessor sweep of execGeneric exports the result
+						_, _ = v.MarshalJSON()
+					}
+					return v, err
+				}}
+			execGeneric(r, base, c, 7)
+		}
+	}
+
 	// representation twins: BOTH operands of every internal comparison / key use
 	for _, a := range stringSources {
 		for _, b := range stringSources {
